@@ -10,16 +10,21 @@ Record ptr := mk_ptr { px : Z; py : Z; pbuttons : Z }.
 Definition ptr0 : ptr := mk_ptr 0 0 0.
 
 (* result: new attribute values, and the bytes written ([None]: the call raised) *)
+(* the event is written first; the attributes are updated only when that did not raise *)
 Definition mouseMove (s : ptr) (x y : Z) : ptr * option bytes :=
-  let s' := mk_ptr x y (pbuttons s) in
-  (s', pointerEvent x y (pbuttons s)).
+  match pointerEvent x y (pbuttons s) with
+  | Some w => (mk_ptr x y (pbuttons s), Some w)
+  | None => (s, None)
+  end.
 
 Definition mouseDown (s : ptr) (b : Z) : ptr * option bytes :=
   if b - 1 <? 0 then (s, None)                      (* negative shift count *)
   else
     let m := Z.lor (pbuttons s) (Z.shiftl 1 (b - 1)) in
-    let s' := mk_ptr (px s) (py s) m in
-    (s', pointerEvent (px s) (py s) m).
+    match pointerEvent (px s) (py s) m with
+    | Some w => (mk_ptr (px s) (py s) m, Some w)
+    | None => (s, None)
+    end.
 
 Definition mouseUp (s : ptr) (b : Z) : ptr * option bytes :=
   if b - 1 <? 0 then (s, None)
